@@ -16,7 +16,11 @@ Ops
 Observations: `nframes n`; per frame `frame i <verb> <ntopics>`, `topic i j =<chan> =<market>` (the venue-side
 decoding of the frame), `raw i <json text>` (Gateio's `time` value replaced by `NOW`); `ids =id …` (`ExchangeSub::id`, `req` only); `map k=id …` (sorted by
 instrument key); `expected n`; `id`, `url`, `parsed`, `scheme`, `host`, `hostvenue`, `ping`, `timeout`;
-`connectors`, `impls`, `servers`. The spec prints the keys the documented intent fixes.
+`connectors`, `impls`, `servers`. The model's `frame` / `topic` lines are the reading of the frame's JSON text by
+`readText` (the model's venue-side reader of the text). The spec prints the keys the documented intent fixes,
+computed from the op alone: `nframes` / `frame` / `topic` (`specFrames`), `map` (ids distinct), `expected` for
+`sub` (documented acknowledgements of the request), `scheme` / `hostvenue` / `timeout`; not `ids`, not `expected`
+for `exp`, not `id` / `url` / `parsed` / `host` / `ping` / `raw` / census keys (correspondence only).
 -/
 namespace BarterModel.Driver.C13Q
 open BarterModel.Driver BarterModel.Connectors BarterModel.SubRequests
@@ -99,8 +103,17 @@ def fmtFrames (fs : List (Str × List Topic)) : List String :=
 def fmtIds (subs : List ESub) : String :=
   ("ids " ++ " ".intercalate (subs.map fun x => "=" ++ s2 x.id)).trimAscii.toString
 
-def fmtWires (ws : List Wire) : List String :=
-  fmtFrames (ws.map fun w => (w.verb, w.topics)) ++
+/-- What the venue reads in a frame: the reading of the frame's JSON TEXT by the model's venue-side reader
+(`readText`: lexer + documented grammar; theorem `venue_reads_the_text`: it equals `(w.verb, w.topics)`). The
+`frame` / `topic` lines of the model are therefore a function of the same text the `raw` line shows, as the
+harness' own lines are a function of the real text. -/
+def readWire (e : Exch) (w : Wire) : Str × List Topic :=
+  match readText (family e) w.text with
+  | some r => r
+  | none => ("unreadable".toList, [])
+
+def fmtWires (e : Exch) (ws : List Wire) : List String :=
+  fmtFrames (ws.map (readWire e)) ++
   (idxd ws).map fun (i, w) => "raw " ++ toString i ++ " " ++ s2 w.text
 
 def famName (e : Exch) : String := s2 (venueName e)
@@ -116,7 +129,7 @@ def model : Drv Unit where
         let tag := "% sub " ++ famName p.exch ++
           (if subs.isEmpty then " empty" else if plan.map.length < subs.length then " duplicate-ids" else " distinct-ids") ++
           (if plan.expected == docAcks p.exch plan.sent then " expected=documented" else " expected!=documented")
-        (s, fmtWires plan.sent ++ [fmtMap plan.map, "expected " ++ toString plan.expected, tag])
+        (s, fmtWires p.exch plan.sent ++ [fmtMap plan.map, "expected " ++ toString plan.expected, tag])
       | _, _ => (s, ["bad-op"])
     | "req" :: e :: rest =>
       match parseExch e, parseESubs rest with
@@ -127,7 +140,7 @@ def model : Drv Unit where
           | .bitmex => !x.chan.contains ':'
           | .bybit => !x.chan.contains '.'
           | _ => true
-        (s, fmtWires (requests e subs) ++ [fmtIds subs,
+        (s, fmtWires e (requests e subs) ++ [fmtIds subs,
           "% req " ++ famName e ++ (if subs.isEmpty then " empty" else if dec then " decodable" else " undecodable")])
       | _, _ => (s, ["bad-op"])
     | ["exp", e, n] =>
@@ -189,13 +202,15 @@ def spec : Drv Unit where
           | .bitmex => !x.chan.contains ':'
           | .bybit => !x.chan.contains '.'
           | _ => true
-        -- `SubscriptionId(channel|market)` (bitfinex/mod.rs notes, exchange/subscription.rs)
-        let ids := ("ids " ++ " ".intercalate (subs.map fun x => "=" ++ s2 x.chan ++ "|" ++ s2 x.market)).trimAscii.toString
-        (s, (if ok then fmtFrames (specFrames e subs) else ["nframes " ++ toString (specFrameCount e subs.length)]) ++ [ids])
+        -- (`ids` = `ExchangeSub::id` is `channel|market` by definition: the spec would only repeat the model's
+        -- `subId`; the key is compared impl-vs-model only)
+        (s, (if ok then fmtFrames (specFrames e subs) else ["nframes " ++ toString (specFrameCount e subs.length)]))
       | _, _ => (s, ["bad-op"])
     | ["exp", e, n] =>
+      -- `expected_responses` on a bare map size: there is no request whose documented acknowledgements could
+      -- be counted; the 1 / n table is compared impl-vs-model only
       match parseExch e, n.toNat? with
-      | some e, some n => (s, specExpected e n true)
+      | some _, some _ => (s, [])
       | _, _ => (s, ["bad-op"])
     | ["consts", e] =>
       match parseExch e with
